@@ -254,7 +254,7 @@ fn main() {
                 em.case(case, &res, nt);
             }
             done["exhaustive"] = json!(true);
-            done["space"] = json!("per sampled history: a crash point before every storage write, every single write-failure position and every pair of consecutive positions");
+            done["space"] = json!("per sampled history: a crash point before every storage write, every single write-failure position, every pair of consecutive positions and, for writes of a commit, every triple (the retry fails twice)");
         }
         "c10" => {
             let mut prof = profile_from(&a, "conflict");
